@@ -74,7 +74,7 @@ pub fn run(ctx: &Ctx) -> Report {
 	};
 	let mut jobs: Vec<(Family, Vec<u8>, Vec<u8>, usize, u8)> = Vec::new();
 	for (depth, level) in &passes {
-		for f in Family::BOTH {
+		for f in Family::active() {
 			for (p, s) in contexts(*level) {
 				jobs.push((f, p, s, *depth, *level));
 			}
